@@ -1975,7 +1975,9 @@ pub fn run_case_line(line: &str, out: &mut String, sink: &mut MonSink) {
 
 /// Runs every case of `cases`, writing result lines to `results` and monitor findings to `mon`
 pub fn run_file(cases: &str, results: &mut impl Write, mon: &mut impl Write) -> io::Result<()> {
-    let mut out = String::new();
+    // allocated before the first `talloc` scope: the result buffer, the main thread's handle
+    let mut out = String::with_capacity(1 << 16);
+    let _ = std::thread::current();
     let mut sink = MonSink::default();
     for line in cases.lines() {
         let line = line.trim_end_matches('\r');
